@@ -7,6 +7,13 @@ pub(crate) mod verif_probe {
     use serde_json::{json, Value};
     use tokio::io::{duplex, split, AsyncReadExt};
 
+    // (the two functions below spell out the representation of the cancel map: compiled out in the minimal probe build)
+    #[cfg(verif_probe_minimal)]
+    fn fill_map(_map: &ClientServerMap, _entries: &Value) {}
+    #[cfg(verif_probe_minimal)]
+    fn dump_map(_map: &ClientServerMap) -> Value { json!([]) }
+
+    #[cfg(not(verif_probe_minimal))]
     fn fill_map(map: &ClientServerMap, entries: &Value) {
         let mut g = map.lock();
         for e in entries.as_array().unwrap() {
@@ -15,6 +22,7 @@ pub(crate) mod verif_probe {
         }
     }
 
+    #[cfg(not(verif_probe_minimal))]
     fn dump_map(map: &ClientServerMap) -> Value {
         let mut v: Vec<Value> = map.lock().iter().map(|(k, val)| json!([k.0, k.1, val.0, val.1, val.2, val.3])).collect();
         v.sort_by_key(|x| x.to_string());
